@@ -230,6 +230,9 @@ type Gen struct {
 	loops   map[*ssa.BasicBlock]*loopInfo
 	specDecl map[string]bool
 	specHeap map[string]*heapParams
+	famRefLeaf map[string]bool
+	fnGhosts   map[string]*fnGhost
+	refAxDone  map[string]bool
 	assumptions []string
 	curPos  token.Pos
 	bodyless bool
@@ -363,6 +366,7 @@ func (g *Gen) famTerm(st *State, fam string, sort string) Term {
 		g.famDeclLine[fam] = len(g.lines)
 		g.emit(fmt.Sprintf("(declare-const %s %s)", name, sort))
 		g.famAxiom(Term{name, sort}, fam)
+		g.refAxiom(fam)
 	}
 	for _, pf := range st.hv {
 		if famUnder(fam, pf) {
@@ -372,6 +376,30 @@ func (g *Gen) famTerm(st *State, fam string, sort string) Term {
 		}
 	}
 	return Term{name, sort}
+}
+
+// refAxiom: every reference stored in an object that exists at entry denotes an object that exists at entry
+// (only such objects: later allocations take their initial content from the same array at indices >= alloc0 and
+// may well hold younger references). Emitted once per family, for its entry version.
+func (g *Gen) refAxiom(fam string) {
+	if !g.famRefLeaf[fam] || g.entry == nil || g.refAxDone[fam] {
+		return
+	}
+	g.refAxDone[fam] = true
+	sort := g.famSort[fam]
+	var decls []string
+	cur := Term{smtName(fam + "@0"), sort}
+	for isArr(cur.Sort) {
+		g.n++
+		q := fmt.Sprintf("k!%d", g.n)
+		decls = append(decls, fmt.Sprintf("(%s %s)", q, arrIdx(cur.Sort)))
+		cur = sel(cur, Term{q, arrIdx(cur.Sort)})
+	}
+	if cur.Sort != SInt || len(decls) == 0 {
+		return
+	}
+	k0 := strings.Fields(strings.Trim(decls[0], "()"))[0]
+	g.assume(Term{fmt.Sprintf("(forall (%s) (=> (and (<= 0 %s) (< %s %s)) (and (<= 0 %s) (< %s %s))))", strings.Join(decls, " "), k0, k0, g.entry.alloc.S, cur.S, cur.S, g.entry.alloc.S), SBool})
 }
 
 // famUnder: family fam is pf itself or a component (field, slice part, array) of it
@@ -390,6 +418,12 @@ func (g *Gen) noteLeaf(fam string, c Comp) {
 	}
 	if leaf != SInt {
 		return
+	}
+	if (strings.HasSuffix(c.Kind, "ref") || (strings.HasSuffix(c.Kind, "base") && !strings.HasSuffix(c.Kind, "strbase"))) && !g.famRefLeaf[fam] {
+		g.famRefLeaf[fam] = true
+		if g.declFam[fam] {
+			g.refAxiom(fam)
+		}
 	}
 	switch {
 	case strings.HasSuffix(c.Kind, "int") && c.GT != nil:
